@@ -24,11 +24,15 @@ type HV struct {
 type Req struct {
 	Method string `json:"m"`
 	H      []HV   `json:"h,omitempty"`
+	Host   string `json:"host,omitempty"` // r.Host / URL host; default server.test
 }
 
 func (q Req) String() string {
 	var sb strings.Builder
 	sb.WriteString(q.Method)
+	if q.Host != "" {
+		sb.WriteString(" host=" + q.Host)
+	}
 	for _, h := range q.H {
 		fmt.Fprintf(&sb, " %s=%q", h.K, h.V)
 	}
@@ -45,7 +49,7 @@ func (q Req) get(k string) ([]string, bool) {
 }
 
 func (q Req) with(k string, v ...string) Req {
-	out := Req{Method: q.Method}
+	out := Req{Method: q.Method, Host: q.Host}
 	done := false
 	for _, h := range q.H {
 		if h.K == k {
@@ -62,7 +66,7 @@ func (q Req) with(k string, v ...string) Req {
 }
 
 func (q Req) without(k string) Req {
-	out := Req{Method: q.Method}
+	out := Req{Method: q.Method, Host: q.Host}
 	for _, h := range q.H {
 		if h.K != k {
 			out.H = append(out.H, HV{h.K, append([]string{}, h.V...)})
@@ -82,6 +86,9 @@ func (q Req) build() *http.Request {
 			vs[i] = strings.Clone(v)
 		}
 		h[hv.K] = vs
+	}
+	if q.Host != "" {
+		return &http.Request{Method: q.Method, URL: &url.URL{Scheme: "https", Host: q.Host, Path: "/resource"}, Proto: "HTTP/2.0", ProtoMajor: 2, Header: h, Host: q.Host}
 	}
 	return &http.Request{Method: q.Method, URL: theURL, Proto: "HTTP/1.1", ProtoMajor: 1, ProtoMinor: 1, Header: h, Host: "server.test"}
 }
